@@ -231,3 +231,8 @@ def run(chk):
         ok = isinstance(f2.node.body[-1], ast.Raise) and 'ChildNotFound' in norm(f2.node.body[-1])
         chk.ob('C14-N', '%s.find raises ChildNotFound when nothing matches' % v, ok, '', f2.loc, key='C14-N|%s.find' % v)
     chk.assume('that reads, writes and deletes through the three spellings reach the same object is object identity at run time: declined')
+
+    chk.rule('C14-G', 'names that address no child are refused (ChildNotFound / ChildNotValid) under the same conditions as in the reviewed tree')
+    from . import guardrules
+    ng_ = guardrules.check(chk, c, 'C14-G', ['core.Element.find_child_reference', 'core.SupportComplexDataType.find_child_reference', 'core.Field.find_child_reference', 'core.Segment.find_child_reference', 'core.Group.find_child_reference', 'core.Message.find_child_reference', 'core.Field._do_traversal', 'core._valid_child_name', 'core.ElementList.create_element'])
+    chk.floor('refusal predicates compared (C14-G)', ng_, 1)
